@@ -601,6 +601,44 @@ for _pid in ("C15", "C16"):
     PROPERTIES[_pid]["rules"] += [("READABLE", lambda ctx: rule_readable(ctx.lib))]
     PROPERTIES[_pid]["explanation"] += " (READABLE) Every readable type created for a function definition is rendered from the function type instantiated with the user's type-parameter names (one known finding: where-clause locals)."
 
+CONVD_EXEMPT = {
+    ("partial_cmp", "fallible:convert_to"): {"reason": "`.ok()?` turns an incompatible-unit error into `None`, which is what PartialOrd is specified to return for incomparable values"},
+}
+
+
+def convd(ctx):
+    """every Result of Quantity::convert_to anywhere in the library is propagated or branched on — never unwrapped:
+    the type checker guarantees equal dimensions of the operands EXCEPT for the polymorphic zero, whose run-time unit is
+    scalar (`mod(0, 3 m)`, `atan2(0, 3 m)` type-check)"""
+    o = rule_errd(ctx.lib, [], ["*"], CONVD_EXEMPT, min_fallible=15, lib_prefix="quantity::Quantity::convert_to", err_type="QuantityError", min_bodies=8)
+    o.rule = "CONVD"
+    o.clause = "no unit-conversion result is unwrapped (a polymorphic zero operand makes conversions of type-correct operands fail)"
+    for f in o.findings:
+        f.rule = "CONVD"
+        f.key = f.key.replace("ERRD:", "CONVD:", 1)
+    return o
+
+
+for _pid in ("C08", "C01"):
+    PROPERTIES[_pid]["rules"] += [("CONVD", convd)]
+    PROPERTIES[_pid]["explanation"] += " (CONVD) No Result of Quantity::convert_to is unwrapped anywhere in the library (one exempt row with its argument): with a polymorphic zero operand a conversion between type-correct operands can fail at run time."
+
+from listview import rule_listeq  # noqa: E402
+
+PROPERTIES["C18"]["rules"] += [("LISTEQ", lambda ctx: rule_listeq(ctx.lib))]
+PROPERTIES["C18"]["explanation"] += " (LISTEQ) List equality is decided by the elements alone: no short-cut on the identity of the shared storage, which would make sharing observable for non-reflexive elements (NaN)."
+
+from dtarith import rule_floatcast  # noqa: E402
+
+PROPERTIES["C19"]["rules"] += [("FLOATCAST", lambda ctx: rule_floatcast(ctx.lib))]
+PROPERTIES["C19"]["explanation"] += " (FLOATCAST) The date-time code converts floats to integers only with checked conversions (one bounded exempt row), so NaN / infinite arguments are errors, not wrong dates."
+
+from constop import rule_unitdtype  # noqa: E402
+
+for _pid in ("C01", "C08"):
+    PROPERTIES[_pid]["rules"] += [("UNITDTYPE", lambda ctx: rule_unitdtype(ctx.lib))]
+    PROPERTIES[_pid]["explanation"] += " (UNITDTYPE) The checker requires the defining expression of a derived unit to have a dimension type (the VM pops a quantity for it)."
+
 NOT_APPLICABLE = {
     "C03": "numerical agreement of conversion factors over 500 units is a statement about run-time values; no structural clause is a necessary condition that is not already covered under C04/C11/C12 (static analysis cannot bound the arithmetic)",
     "C14": "a statement about the decimal rendering of every f64 under every format setting; the code delegates to pretty_dtoa/num_format and no structural clause of Number::pretty_print_with_dtoa_config can be decided without evaluating it",
